@@ -25,11 +25,16 @@ META = {
                   "receive, waitall over all pending requests, pending requests of a rank distinct by (src,dst,tag). Sleep durations "
                   "have <=6 significant digits (the TI writer prints doubles with the default stream precision). Explicit "
                   "smpi_execute_flops is not part of the deciding set (the statement is about runs where computation is not simulated). "
+                  "A 7-digit sleep is run as a non-deciding probe (counter probe.sleep-7-digits.*). While a known finding is open its "
+                  "trigger (field `avoid` of known_findings.d/C37.json: collective selectors, zero-count gather/scatter, reuse of a "
+                  "tested (src,dst,tag), scan with os/or overheads, reduce_scatter_block) is kept out of the random programs and "
+                  "re-found by a directed case; it comes back in the random programs when the entry is marked fixed. Non-default "
+                  "selectors run without zero counts and without alltoallv on non-power-of-two worlds (online crashes that belong to C29). "
                   "Hooks flavour only (SMPI under ASan reports in the sanitizer's own sigaltstack interceptor).",
     "rule": "case = (platform, hostfile, smpi options, program); non-trivial = the replay logged >= 3 actions that all carry a date "
             "compared with the online run; distinct by program text + platform",
     "assumptions": ["the online run is the reference: it is only required to terminate", "trusted: smpirun script, log layout %r"],
-    "ready": False,
+    "ready": True,
 }
 
 SMALL = None
@@ -238,7 +243,9 @@ def judge(ctx, base, name, case, tmo=300, bisect=True):
         return st
     if st == "online-fail":
         # the online run is the reference of this property; a program that does not run online decides nothing here
-        ctx.inconclusive("online run failed: rc=%s %s" % (info["rc"], (info["err"] or info["out"]).strip().splitlines()[-1:] or ""))
+        lines = (info["err"] or info["out"]).strip().splitlines()
+        crit = next((l.split("] ", 2)[-1] for l in lines if "CRITICAL" in l or "exception" in l), (lines[-1:] or [""])[0])
+        ctx.inconclusive("online run failed: rc=%s %s" % (info["rc"], crit[:160]))
         ctx.count("online_failures")
         return st
     if st == "ok":
